@@ -127,6 +127,26 @@ inductive Err where
   | compile    -- OutOfPositionMatchEllipsis / MultipleMatchEllipses
   deriving DecidableEq, Repr, Inhabited
 
+/-- Which repairs of the listed findings the mirrored code contains. All `false` is the tree the
+findings were recorded on; the harness sets a field when the corresponding entry of
+`known_findings.json` has status `fixed` (the repair is then part of what the model mirrors, and
+the witness must behave as documented).
+* `sizeNullJumps` (F-C03-1): `JumpIfNull` after `Size` when the pattern has an ellipsis;
+* `nestedLast`    (F-C03-3): `has_last_pattern && is_last_pattern` is passed down to nested lists;
+* `accessFalls`   (F-C03-4): `TryAccess` on a value without `.` access jumps instead of raising;
+* `rangeSlices`   (F-C03-5): `SliceFrom`/`SliceTo` on a bounded range yield the sub-range. -/
+structure Cfg where
+  sizeNullJumps : Bool
+  nestedLast : Bool
+  accessFalls : Bool
+  rangeSlices : Bool
+  deriving DecidableEq, Repr, Inhabited
+
+/-- the tree the findings were recorded on -/
+def Cfg.recorded : Cfg := ⟨false, false, false, false⟩
+/-- every repair applied -/
+def Cfg.repaired : Cfg := ⟨true, true, true, true⟩
+
 /-! ### the VM operations a match uses, on every kind of value -/
 
 /-- `Size` with `throw_if_value_has_no_size = false`: `none` is Null -/
@@ -179,22 +199,41 @@ def tempIndex (v : Val) (i : Int) : Except Err Val :=
       if geLo && ltHi then .ok (.num (.i (Int64.ofInt r))) else .ok .null
   | _ => .error .index
 
+/-- `as_bounded_range` of a bounded range: `start .. max end' start` -/
+def rangeBounds (a : Int64) (e : Int64) (incl : Bool) : Int × Int :=
+  let e' : Int := if incl then e.toInt + 1 else e.toInt
+  (a.toInt, max e' a.toInt)
+
+def mkRange (a b : Int) : Val := .range (some (Int64.ofInt a)) (some (Int64.ofInt b, false))
+
 /-- `run_slice … is_slice_to = false` -/
-def sliceFrom (v : Val) (i : Int) : Except Err Val :=
+def sliceFrom (C : Cfg) (v : Val) (i : Int) : Except Err Val :=
   match v with
   | .list xs => let k := sidx i xs.length; .ok (if k ≤ xs.length then .list (xs.drop k) else .null)
   | .tuple xs => let k := sidx i xs.length; .ok (if k ≤ xs.length then .tuple (xs.drop k) else .null)
   | .str bs => .ok (strBounds bs (sidx i bs.length) bs.length)
   | .map es => let k := sidx i es.length; .ok (if k ≤ es.length then .map (es.drop k) else .null)
+  | .range (some a) (some (e, incl)) =>
+    if C.rangeSlices then
+      let b := rangeBounds a e incl
+      let size := (b.2 - b.1).toNat
+      .ok (mkRange (b.1 + (min (sidx i size) size : Nat)) b.2)
+    else .error .slice
   | _ => .error .slice
 
 /-- `run_slice … is_slice_to = true` -/
-def sliceTo (v : Val) (i : Int) : Except Err Val :=
+def sliceTo (C : Cfg) (v : Val) (i : Int) : Except Err Val :=
   match v with
   | .list xs => let k := sidx i xs.length; .ok (if k ≤ xs.length then .list (xs.take k) else .null)
   | .tuple xs => let k := sidx i xs.length; .ok (if k ≤ xs.length then .tuple (xs.take k) else .null)
   | .str bs => .ok (strBounds bs 0 (sidx i bs.length))
   | .map es => let k := sidx i es.length; .ok (if k ≤ es.length then .map (es.take k) else .null)
+  | .range (some a) (some (e, incl)) =>
+    if C.rangeSlices then
+      let b := rangeBounds a e incl
+      let size := (b.2 - b.1).toNat
+      .ok (mkRange b.1 (b.1 + (min (sidx i size) size : Nat)))
+    else .error .slice
   | _ => .error .slice
 
 def isStrKey (key : List Nat) : Val → Bool
@@ -206,11 +245,11 @@ def lookupKey (key : List Nat) : List (Val × Val) → Option Val
   | (k, v) :: rest => if isStrKey key k then some v else lookupKey key rest
 
 /-- `run_try_access` for a key that is not a core-library function name: `ok none` = jump -/
-def tryAccess (v : Val) (key : List Nat) : Except Err (Option Val) :=
+def tryAccess (C : Cfg) (v : Val) (key : List Nat) : Except Err (Option Val) :=
   match v with
   | .map es => .ok (lookupKey key es)
-  | .null => .error .access
-  | .bool _ => .error .access
+  | .null => if C.accessFalls then .ok none else .error .access
+  | .bool _ => if C.accessFalls then .ok none else .error .access
   | _ => .ok none
 
 /-! ### the algorithmic matcher -/
@@ -253,28 +292,28 @@ jumps to `match_end` -/
 def fin (la isLast : Bool) (ρ : Env) : R := if !la && isLast then .done ρ else .ok ρ
 
 /-- `Size`, `SetNumberU8`, then `Equal` or `GreaterOrEqual` -/
-def sizeCheck (v : Val) (n : Nat) (hasRest : Bool) : Except Err Bool :=
+def sizeCheck (C : Cfg) (v : Val) (n : Nat) (hasRest : Bool) : Except Err Bool :=
   match vmSize v with
-  | none => if hasRest then .error .geNull else .ok false
+  | none => if hasRest && !C.sizeNullJumps then .error .geNull else .ok false
   | some k => .ok (if hasRest then decide (n - 1 ≤ k) else k == n)
 
 /-- `try_unpack_map`, entry by entry -/
-def mEnts : List Ent → Src → Env → R
+def mEnts (C : Cfg) : List Ent → Src → Env → R
   | [], _, ρ => .ok ρ
   | e :: es, s, ρ =>
-    match tryAccess (s.rd ρ) e.key with
+    match tryAccess C (s.rd ρ) e.key with
     | .error er => .err er
     | .ok none => .fail ρ
     | .ok (some v) =>
       let ρ1 := match e.bind with | some x => ρ.set x v | none => ρ
-      if tyFail e.ty v then .fail ρ1 else mEnts es s ρ1
+      if tyFail e.ty v then .fail ρ1 else mEnts C es s ρ1
 
 def restCount (rest : Option (Option Name)) : Nat := if rest.isSome then 1 else 0
 
 mutual
-/-- one pattern; `la` = `is_last_alternative`, `isLast` = `is_last_pattern` (of the pattern's own
+/-- one pattern; `la` = `is_last_alternative`, `isLast` = `has_last_pattern && is_last_pattern` (of the pattern's own
 list) -/
-def mPat (F : FloatOps) (la : Bool) : Pat → Bool → Acc → Env → R
+def mPat (F : FloatOps) (C : Cfg) (la : Bool) : Pat → Bool → Acc → Env → R
   | .lit l, isLast, a, ρ =>
     match fetch ρ a with
     | .error e => .err e
@@ -299,48 +338,50 @@ def mPat (F : FloatOps) (la : Bool) : Pat → Bool → Acc → Env → R
     | .ok s =>
       if tyFail ty (s.rd ρ) then .fail ρ
       else
-        match mEnts es s ρ with
+        match mEnts C es s ρ with
         | .ok ρ1 => fin la isLast ρ1
         | r => r
-  | .seq pre rest post, _, a, ρ =>
+  | .seq pre rest post, isLast, a, ρ =>
     match container ρ a with
     | .error e => .err e
     | .ok s =>
       if (rest.isSome && !pre.isEmpty && !post.isEmpty) || (rest.isNone && !post.isEmpty) then .err .compile
       else
         let n := pre.length + restCount rest + post.length
-        match (if n = 0 then Except.ok true else sizeCheck (s.rd ρ) n rest.isSome) with
+        -- may the last pattern of this list take the jump to `match_end`?
+        let lf := if C.nestedLast then isLast else true
+        match (if n = 0 then Except.ok true else sizeCheck C (s.rd ρ) n rest.isSome) with
         | .error e => .err e
         | .ok false => .fail ρ
         | .ok true =>
           match rest with
-          | none => mPats F la pre s 0 true ρ
+          | none => mPats F C la pre s 0 lf ρ
           | some r =>
             if post.isEmpty then
               -- trailing ellipsis (also the lone `(...)` / `(rest...)`)
-              match mPats F la pre s 0 false ρ with
+              match mPats F C la pre s 0 false ρ with
               | .ok ρ1 =>
                 (match r with
-                 | none => fin la true ρ1
+                 | none => fin la lf ρ1
                  | some x =>
-                   match sliceFrom (s.rd ρ1) pre.length with
+                   match sliceFrom C (s.rd ρ1) pre.length with
                    | .error e => .err e
-                   | .ok v => fin la true (ρ1.set x v))
+                   | .ok v => fin la lf (ρ1.set x v))
               | r' => r'
             else
               -- leading ellipsis: `SliceTo -(n-1)`, then indices from the end
               match (match r with
                      | none => Except.ok ρ
-                     | some x => (sliceTo (s.rd ρ) (-(post.length : Int))).map (ρ.set x)) with
+                     | some x => (sliceTo C (s.rd ρ) (-(post.length : Int))).map (ρ.set x)) with
               | .error e => .err e
-              | .ok ρ1 => mPats F la post s (-(post.length : Int)) true ρ1
+              | .ok ρ1 => mPats F C la post s (-(post.length : Int)) lf ρ1
 /-- consecutive patterns at element indices `i, i+1, …`; `lastFlag` = the final pattern of this
 list is the last pattern of the enclosing parenthesised pattern -/
-def mPats (F : FloatOps) (la : Bool) : List Pat → Src → Int → Bool → Env → R
+def mPats (F : FloatOps) (C : Cfg) (la : Bool) : List Pat → Src → Int → Bool → Env → R
   | [], _, _, _, ρ => .ok ρ
   | p :: ps, s, i, lastFlag, ρ =>
-    match mPat F la p (lastFlag && ps.isEmpty) (.elem s i) ρ with
-    | .ok ρ1 => mPats F la ps s (i + 1) lastFlag ρ1
+    match mPat F C la p (lastFlag && ps.isEmpty) (.elem s i) ρ with
+    | .ok ρ1 => mPats F C la ps s (i + 1) lastFlag ρ1
     | r => r
 end
 
@@ -351,9 +392,9 @@ inductive Alt where
   | many (ps : List Pat)
   deriving Repr, Inhabited
 
-def mAlt (F : FloatOps) (la : Bool) : Alt → Src → Env → R
-  | .one p, s, ρ => mPat F la p true (.direct s) ρ
-  | .many ps, s, ρ => mPats F la ps s 0 true ρ
+def mAlt (F : FloatOps) (C : Cfg) (la : Bool) : Alt → Src → Env → R
+  | .one p, s, ρ => mPat F C la p true (.direct s) ρ
+  | .many ps, s, ρ => mPats F C la ps s 0 true ρ
 
 inductive AR where
   | matched (ρ : Env)
@@ -362,19 +403,19 @@ inductive AR where
 
 /-- the alternatives of one arm, in order.  In a non-last alternative success is the jump to
 `match_end`; reaching the end of its code (`ok`) *is* the start of the next alternative. -/
-def mAlts (F : FloatOps) : List Alt → Src → Env → AR
+def mAlts (F : FloatOps) (C : Cfg) : List Alt → Src → Env → AR
   | [], _, ρ => .unmatched ρ
   | [a], s, ρ =>
-    match mAlt F true a s ρ with
+    match mAlt F C true a s ρ with
     | .ok ρ' => .matched ρ'
     | .done ρ' => .matched ρ'
     | .fail ρ' => .unmatched ρ'
     | .err e => .err e
   | a :: b :: rest, s, ρ =>
-    match mAlt F false a s ρ with
+    match mAlt F C false a s ρ with
     | .done ρ' => .matched ρ'
-    | .ok ρ' => mAlts F (b :: rest) s ρ'
-    | .fail ρ' => mAlts F (b :: rest) s ρ'
+    | .ok ρ' => mAlts F C (b :: rest) s ρ'
+    | .fail ρ' => mAlts F C (b :: rest) s ρ'
     | .err e => .err e
 
 /-- an arm: `alts = []` is the `else` arm; the guard is an arbitrary total function of the
@@ -398,21 +439,21 @@ structure Res where
   out : Out
   trace : List Ev
 
-def evalArms (F : FloatOps) : List Arm → Nat → Src → Env → Res
+def evalArms (F : FloatOps) (C : Cfg) : List Arm → Nat → Src → Env → Res
   | [], _, _, ρ => ⟨.none ρ, []⟩
   | arm :: arms, i, s, ρ =>
     if arm.alts.isEmpty then ⟨.arm i ρ, [.body i]⟩
     else
-      match mAlts F arm.alts s ρ with
+      match mAlts F C arm.alts s ρ with
       | .err e => ⟨.err e, []⟩
-      | .unmatched ρ' => evalArms F arms (i + 1) s ρ'
+      | .unmatched ρ' => evalArms F C arms (i + 1) s ρ'
       | .matched ρ' =>
         match arm.guard with
         | none => ⟨.arm i ρ', [.body i]⟩
         | some g =>
           if g ρ' then ⟨.arm i ρ', [.guard i, .body i]⟩
           else
-            let r := evalArms F arms (i + 1) s ρ'
+            let r := evalArms F C arms (i + 1) s ρ'
             ⟨r.out, .guard i :: r.trace⟩
 
 /-- the subject of a `match`: a bare local (its register is the match register), any other
@@ -423,11 +464,11 @@ inductive Subj where
   | expr (v : Val)
   | multi (vs : List Val)
 
-def evalMatch (F : FloatOps) (sub : Subj) (arms : List Arm) (ρ : Env) : Res :=
+def evalMatch (F : FloatOps) (C : Cfg) (sub : Subj) (arms : List Arm) (ρ : Env) : Res :=
   match sub with
-  | .var x => evalArms F arms 0 (.reg x) ρ
-  | .expr v => let r := evalArms F arms 0 (.tmp v) ρ; ⟨r.out, .subj :: r.trace⟩
-  | .multi vs => let r := evalArms F arms 0 (.tmp (.tuple vs)) ρ; ⟨r.out, .subj :: r.trace⟩
+  | .var x => evalArms F C arms 0 (.reg x) ρ
+  | .expr v => let r := evalArms F C arms 0 (.tmp v) ρ; ⟨r.out, .subj :: r.trace⟩
+  | .multi vs => let r := evalArms F C arms 0 (.tmp (.tuple vs)) ρ; ⟨r.out, .subj :: r.trace⟩
 
 /-! ### the declarative definition (the language guide) -/
 
